@@ -129,7 +129,7 @@ def build_app(i, timeout=900):
     return True, ""
 
 
-def run_pavexc(i, check=False, home=None, timeout=600, extra_env=None, diagnostics=True, strace_out=None):
+def run_pavexc(i, check=False, home=None, timeout=600, extra_env=None, diagnostics=True, strace_out=None, diag_path="diag.dot"):
     d = slot_dir(i)
     env = e2e_env.pavexc_env(home or os.path.join(d, "home"))
     env["CARGO_TARGET_DIR"] = os.path.join(d, "target")
@@ -137,7 +137,7 @@ def run_pavexc(i, check=False, home=None, timeout=600, extra_env=None, diagnosti
         env.update(extra_env)
     cmd = [e2e_env.pavexc_bin(), "generate", "--blueprint", "bp.ron", "--output", "sdk"]
     if diagnostics:
-        cmd += ["--diagnostics", "diag.dot"]
+        cmd += ["--diagnostics", diag_path]
     if check:
         cmd.append("--check")
     if strace_out:
